@@ -157,6 +157,11 @@ GravOf(P, p) ==
     Sb(Sb(Neg(Dv(m1, P.r1, p), p), Dv(P.mu, P.r2, p), p), Ml(Half(p), Ml(P.mu, m1, p), p), p)
 UeffOf(P, p) == Ad(Neg(Ml(Half(p), Ad(Ml(P.x, P.x, p), Ml(P.y, P.y, p), p), p), p), GravOf(P, p), p)
 
+\* pseudo-potential Omega = (x^2+y^2)/2 + (1-mu)/r1 + mu/r2 (pseudo_potential_at_point, hill_region: Z = Omega - C/2)
+OmegaOf(P, p) ==
+    LET m1 == Sb(1, P.mu, p) IN
+    Ad(Ml(Half(p), Ad(Ml(P.x, P.x, p), Ml(P.y, P.y, p), p), p), Ad(Dv(m1, P.r1, p), Dv(P.mu, P.r2, p), p), p)
+
 (* ------------------------------ checking ------------------------------- *)
 VARIABLES w, done
 vars == <<w, done>>
@@ -199,6 +204,14 @@ JacobiIsMinusTwoEnergy ==
 EnergyDecomposition ==
     \A p \in Primes : Usable(p) =>
         LET P == Pt(w, p) IN Ad(KineticOf(P, p), UeffOf(P, p), p) = EnergyOf(P, p)
+
+\* Omega = -U_eff - mu(1-mu)/2, and the zero-velocity surface of hill_region: Omega - C/2 = v^2/2 with the
+\* Jacobi constant C of _max_rel_energy_error (so Z = Omega - C/2 <= 0 exactly where motion with that C is possible)
+PseudoPotentialConsistent ==
+    \A p \in Primes : Usable(p) =>
+        LET P == Pt(w, p) IN
+        /\ OmegaOf(P, p) = Sb(Neg(UeffOf(P, p), p), Ml(Half(p), Ml(P.mu, Sb(1, P.mu, p), p), p), p)
+        /\ Sb(OmegaOf(P, p), Ml(Half(p), JacobiOf(P, p), p), p) = KineticOf(P, p)
 
 \* the Jacobian's potential block is symmetric and (for the gravitational part) the field is
 \* a gradient: trace-free Hessian of the Newtonian potential, i.e. oxx + oyy + ozz = 2
